@@ -79,11 +79,22 @@ type callRes struct {
 
 const (
 	latencyCeiling = 2 * time.Second
-	hangCeiling    = 6 * time.Second
+	hangCeilingMax = 6 * time.Second
 	settleCeiling  = 2 * time.Second
 )
 
 var nonceCtr atomic.Int64
+
+// hangCeiling: how long a scenario waits for a call before it calls it hung; shortened for a transport once a hang of
+// that transport has been confirmed by the solo re-runs (a broken tree would otherwise cost 6 s per scenario).
+var hangCeilings = map[string]time.Duration{}
+
+func hangCeiling(tag string) time.Duration {
+	if d, ok := hangCeilings[tag]; ok {
+		return d
+	}
+	return hangCeilingMax
+}
 
 func callTool(ctx context.Context, call func(context.Context, *mcp.CallToolRequest) (*mcp.CallToolResult, error), nonce string) callRes {
 	r, err := call(ctx, &mcp.CallToolRequest{Params: mcp.CallToolParams{Name: "echo", Arguments: map[string]any{"nonce": nonce}}})
@@ -112,7 +123,7 @@ func judge(sc scen, order []string, res map[string]callRes, hung map[string]bool
 	for i, nonce := range order {
 		if hung[nonce] {
 			classes[i] = "hung"
-			probs = append(probs, problem{fp: "calls:" + tag + ":call_never_returns", what: "a pending call did not return after the fault (waited " + hangCeiling.String() + ")", observed: map[string]any{"call": i}})
+			probs = append(probs, problem{fp: "calls:" + tag + ":call_never_returns", what: "a pending call did not return after the fault (waited " + hangCeiling(tag).String() + ")", observed: map[string]any{"call": i}})
 			continue
 		}
 		r := res[nonce]
@@ -314,7 +325,7 @@ func runHTTP(sc scen) (observation, []problem) {
 	}
 	// collect
 	hung := map[string]bool{}
-	hangT := time.After(hangCeiling)
+	hangT := time.After(hangCeiling(sc.transportTag()))
 collect:
 	for len(res) < sc.N {
 		select {
@@ -543,7 +554,7 @@ func runStdio(sc scen, dir string) (observation, []problem) {
 		t0 = issued.Add(timeout)
 	}
 	hung := map[string]bool{}
-	hangT := time.After(hangCeiling)
+	hangT := time.After(hangCeiling(sc.transportTag()))
 collect:
 	for len(res) < sc.N {
 		select {
